@@ -53,6 +53,10 @@ class BranchingValues:
             ret[nm] = copy.deepcopy(val)
         return ret
 
+def _negate(cond):
+    # logical negation of a branch condition: LinCombBool or public 0/1
+    return ~cond if isinstance(cond, LinCombBool) else 1-cond
+
 class BranchContext:
     def __init__(self, cond, ctx):
         self.ctx = ctx
@@ -90,7 +94,7 @@ class BranchContext:
 
 class IfContext(BranchContext):
     def __init__(self, cond, ctx):
-        self.icond = 1-cond # should be before super().__init__ because may be guarded
+        self.icond = _negate(cond) # should be before super().__init__ because may be guarded
         super().__init__(cond, ctx)
         
     def _elif(self, nwcond):
@@ -99,7 +103,7 @@ class IfContext(BranchContext):
             
         self.exit()
         nwcond = nwcond()
-        nwicond = self.icond&(1-nwcond) # need to calculate before entering guard
+        nwicond = self.icond&_negate(nwcond) # need to calculate before entering guard
         self.enter(self.icond&nwcond)
         self.icond = nwicond
         
@@ -177,7 +181,7 @@ def _endwhile(ctx=None):
     getcontext(ctx).stack.pop().end()
     
 def _breakif(cond,ctx=None):
-    getcontext(ctx).stack[-1]._while(1-cond)
+    getcontext(ctx).stack[-1]._while(_negate(cond))
 
 class ObliviousIterator():
     def __init__(self, start, stop, max, ctx, checkstopmax):
